@@ -374,15 +374,18 @@ def recording_base(base_name, log):
             self._pulls = 0
             log["created"].append({"kw": {k: v for k, v in kw.items() if k in ("nu", "rho", "rounds")}, "obj": self})
 
-        def pull(self, time):
+        # arguments are handed on exactly as the wrapper wrote them (positional or keyword: POO.get_last_point calls
+        # pull(time=0)), so a renamed parameter of the base learner is not masked by this recorder
+        def pull(self, *a, **kw):
             self._pulls += 1
             log["events"].append(("pull", self._lid))
-            return base.pull(self, time)
+            return base.pull(self, *a, **kw)
 
-        def receive_reward(self, time, reward):
+        def receive_reward(self, *a, **kw):
+            reward = kw["reward"] if "reward" in kw else a[1]
             self._rewards.append(reward)
             log["events"].append(("recv", self._lid, reward))
-            return base.receive_reward(self, time, reward)
+            return base.receive_reward(self, *a, **kw)
 
     Rec.__name__ = base_name
     Rec.__qualname__ = base_name
@@ -808,6 +811,13 @@ def gen_algo_case(seed, idx, algo=None, force=None, monitors_on=True, T=None, ho
             # queries while the last learners are being validated (the scores the final choice is made from are still moving)
             query_rounds |= set(qrnd.sample(range(max(0, T - max(T // 4, 1)), T), min(3, max(T // 4, 1))))
     labels = force.get("labels")
+    if labels is None and "t0" not in force and ad.name in ("T_HOO", "HCT", "VHCT", "Zooming", "POO", "DOO", "SOO", "SequOOL", "VROOM") \
+            and qrnd.random() < 0.12:
+        # the algorithms documented as ignoring the time argument: labels that repeat (an epoch or batch number, a constant)
+        step_ = qrnd.choice([2, 3, 10, 10 ** 6])
+        labels = [i_ // step_ for i_ in range(T)]
+        case.tags["labels=repeating"] += 1
+        meta["labels"] = f"i//{step_}"
     MID = ("VROOM", "SOO", "DOO", "SequOOL", "StoSOO", "T_HOO", "HCT", "VHCT", "POO")
     if force.get("mid_queries") is not None:
         mid_queries = set(force["mid_queries"])
@@ -819,7 +829,8 @@ def gen_algo_case(seed, idx, algo=None, force=None, monitors_on=True, T=None, ho
     delta = Delta()
     ctx = {"case": case, "ad": ad, "meta": meta, "rewards": [], "points": [], "pulled": [], "box": box, "kind": kind, "K": K}
     user_box = [list(iv) for iv in box]
-    if all(float(x).is_integer() and abs(x) < 2 ** 50 for iv in box for x in iv) and random.Random(f"intbox-{seed}-{idx}-{ad.name}").random() < 0.4:
+    if all(float(x).is_integer() and abs(x) < 2 ** 50 for iv in box for x in iv) and \
+            (force["spell_ints"] if force.get("spell_ints") is not None else random.Random(f"intbox-{seed}-{idx}-{ad.name}").random() < 0.4):
         # the domain as users (and the library's own tests) write it: integer bounds
         user_box = [[int(iv[0]), int(iv[1])] for iv in box]
         case.tags["domain=integer-bounds"] += 1
